@@ -11,7 +11,7 @@ id=$1; shift
 mkdir -p $RB
 rsync -a --exclude 'Generated/Code.lean' $WS/lean/ $RB/lean/
 cd $WT && git checkout -q -- . && git clean -fdq
-if ! git apply $WS/seeded/$id/patch.diff; then echo "$id: PATCH DOES NOT APPLY"; exit 0; fi
+if ! git apply ${SEEDS:-$WS/seeded}/$id/patch.diff; then echo "$id: PATCH DOES NOT APPLY"; exit 0; fi
 $WS/build/target-tr/debug/rs2lean $WT $RB/lean/ClockBound/Generated/Code.lean > /dev/null 2>&1
 cd $WT && git checkout -q -- . && git clean -fdq
 RB=$RB python3 - "$id" <<'PY'
